@@ -133,39 +133,17 @@ def work_forms(args):
 # ---- features of a failing case (for triage and known-finding selectors) -----------------------------
 
 def features(rec, meta, clause, j, detail):
-  N = rec["N"]
   f = {"origin": meta.get("origin", ""), "kind": rec["kind"]}
   if rec["kind"] == "forms":
     f["prop"] = rec["prop"]
     f["form"] = detail
+    if meta.get("err"):
+      f["error"] = meta["err"][:60]
     return f
-  syntaxes = sorted({nd[a]["syntax"] for nd in N for a in ("b", "d", "e")} - {"none"})
-  f["syntaxes"] = ",".join(syntaxes)
-  f["frame_rate_specified"] = bool(rec["P"]["fr"])
-  f["tick_rate_specified"] = bool(rec["P"]["tr"])
-  f["uses_ticks"] = "t" in syntaxes
+  N = rec["N"]
   f["has_seq"] = any(nd["tc"] == "seq" for nd in N)
   f["has_set"] = any(nd["kind"] == "set" for nd in N)
   f["has_regions"] = any(nd["kind"] == "region" for nd in N)
-
-  def timed(nd, a):
-    return nd[a]["syntax"] != "none"
-
-  containers = ("body", "div", "p", "span")
-  # a par container that begins after its syncbase, has no dur/end of its own, and a child with a resolved end
-  f["par_offset_container_with_implicit_end"] = any(
-    nd["kind"] in containers and nd["tc"] == "par" and timed(nd, "b") and not timed(nd, "d") and not timed(nd, "e")
-    and nd["kids"] for nd in N)
-  f["seq_offset_container"] = any(nd["kind"] in containers and nd["tc"] == "seq" and timed(nd, "b") for nd in N)
-
-  def indefinite_child_before_last(nd):
-    ks = nd["kids"]
-    for k in ks[:-1]:
-      kd = N[k - 1]
-      if kd["kind"] in containers and not timed(kd, "d") and not timed(kd, "e"):
-        return True
-    return False
-  f["seq_child_after_possibly_indefinite"] = any(nd["tc"] == "seq" and indefinite_child_before_last(nd) for nd in N)
   if rec["kind"] in ("corrupt", "unknown"):
     w = meta.get("what", {})
     f["attr"] = w.get("attr", "")
